@@ -1,7 +1,8 @@
 """C01 — evaluation agrees with the Jsonnet language semantics.
 
 SPEC: coq/theories/Sem (reference call-by-need interpreter).  Theorems: coq/theories/C01
-(argument binding, scope lookup, call-style invariance).  Correspondence: type-directed
+(argument binding, scope lookup, call-style invariance; PropertiesOps.v: the operator dispatch of
+evaluate/operator.rs and val.rs, translated arm by arm into Gen/GenOps.v on every run, is the dispatch of Sem).  Correspondence: type-directed
 random programs (vlib/progen.py) evaluated by the real code in several configurations
 (2 parsers x positional/named call style x 4 embeddings) and by Sem inside Coq; every
 configuration must give Sem's JSON value, or an error exactly when Sem gives an error.
@@ -360,6 +361,8 @@ RULE = ("type-directed random programs (locals incl. shadowing and mutual refere
         "non-trivial = at least 6 AST nodes")
 TRUSTED = ["Coq 8.16.1 kernel incl. vm_compute", "Sem (coq/theories/Sem) is my formalisation of the Jsonnet "
            "operational semantics (numbers restricted to integers below 2^53; out-of-model cases skipped and counted)",
-           "jrharness eval + generators + Coq term parser"]
+           "jrharness eval + generators + Coq term parser",
+           "translator/gens/ops.py copies the arms of the operator `match` expressions it recognises (fails closed otherwise); "
+           "the meaning given to each body class (class_sem in C01/ModelOps.v) is my reading of the Rust bodies"]
 ASSUMPTIONS = ["the full evaluator is not transliterated: agreement with Sem beyond generated programs is not a theorem",
                "documented deviations excluded from generation: standalone super, str*num, erroring LHS of `in super`"]
